@@ -6,6 +6,7 @@ import Bita.Proofs.CloneSound
 import Bita.Proofs.CloneNoJunk
 import Bita.Proofs.Schedule
 import Bita.Proofs.StepOrder
+import Bita.Proofs.CliRoundtrip
 
 namespace Bita.Props.C05
 open Bita Bita.Spec Bita.Proofs
@@ -47,6 +48,24 @@ theorem rerun_completes (H : Bytes → Bytes) (hH : ∀ x, (H x).length = 64)
   rcases this with ⟨hok, _, hout⟩ | hc
   · exact Or.inl ⟨hok, hout rfl⟩
   · exact Or.inr hc
+
+/-- **T1 at the command line** (file-system model, open flags read from the source): whatever bytes
+`left` an interrupted run - or a chain of them - has left in the output file, `bita clone
+--seed-output` of a conforming archive into it, with any seed files that exist, succeeds and
+leaves exactly the source there; or a collision with a genuine source chunk is exhibited. -/
+theorem cli_rerun_completes (H : Bytes → Bytes) (hH : ∀ x, (H x).length = 64)
+    (decomp : Nat → Bytes → Nat → Option Bytes) (kc : CloneCmd) (fs : Fs) (an : Node)
+    (a : Archive) (src : Bytes) (cks : List Bytes)
+    (harch : fs.get kc.archivePath = some an)
+    (hinit : tryInit H [] (honestReadAt an.data) = .ok a) (hd : Describes H a src cks)
+    (hs : Stored H decomp a an.data) (hpin : kc.pin = none)
+    (hso : kc.flags.seedOutput = true) (left : Bytes) (hleft : fs.get kc.output = some (.regular left))
+    (hseeds : ∀ p ∈ kc.seedPaths, (fs.get p).isSome) :
+    ((Cli.clone H decomp kc fs).ok = true ∧
+        (Cli.clone H decomp kc fs).fs.get kc.output = some (.regular src)) ∨
+      Collision H a.hashLength cks :=
+  clone_conforming_fs H hH decomp kc fs an a src cks harch hinit hd hs hpin
+    (Or.inr ⟨Or.inr hso, left, hleft⟩) (fun p hp => Or.inl (hseeds p hp))
 
 /-- Repeated interruptions: whatever content a chain of interrupted runs leaves, the final
 complete in-place run yields the source.  (Each link is `rerun_completes`; the chain is
